@@ -1,16 +1,22 @@
 package main
 
 import (
+	"crypto/tls"
 	"io"
+	"net"
 	"net/http"
 	"net/http/httptest"
 	"strconv"
 	"sync"
+
+	"github.com/imroc/req/v3/internal/testcert"
+	qh3 "github.com/quic-go/quic-go/http3"
 )
 
 // arrived: what the origin saw for one exchange.
 type arrived struct {
 	Method  string
+	Proto   string // HTTP/1.1, HTTP/2.0, HTTP/3.0 as the server saw it
 	Header  http.Header
 	CL      int64
 	TE      []string
@@ -22,29 +28,72 @@ type origin struct {
 	mu    sync.Mutex
 	seen  map[string]*arrived
 	serve map[string][]byte // download payloads by id
-	srv   *httptest.Server
+	srv   *httptest.Server  // HTTP/1.1
+	h2    *httptest.Server  // TLS, HTTP/2 (net/http's bundled x/net/http2 server)
+	h3    *qh3.Server       // quic-go http3.Server on loopback UDP
+	h3url string
 }
 
 func startOrigin() *origin {
 	o := &origin{seen: map[string]*arrived{}, serve: map[string][]byte{}}
-	o.srv = httptest.NewServer(http.HandlerFunc(o.handle))
+	hf := http.HandlerFunc(o.handle)
+	o.srv = httptest.NewServer(hf)
+	o.h2 = httptest.NewUnstartedServer(hf)
+	o.h2.EnableHTTP2 = true
+	o.h2.StartTLS()
+	if cert, err := tls.X509KeyPair(testcert.LocalhostCert, testcert.LocalhostKey); err == nil {
+		if pc, err := net.ListenPacket("udp", "127.0.0.1:0"); err == nil {
+			o.h3 = &qh3.Server{TLSConfig: qh3.ConfigureTLSConfig(&tls.Config{Certificates: []tls.Certificate{cert}}), Handler: hf}
+			go o.h3.Serve(pc)
+			o.h3url = "https://" + pc.LocalAddr().String()
+		}
+	}
 	return o
 }
 
-func (o *origin) close() { o.srv.Close() }
+func (o *origin) close() {
+	o.srv.Close()
+	o.h2.Close()
+	if o.h3 != nil {
+		o.h3.Close()
+	}
+}
 
 func (o *origin) handle(w http.ResponseWriter, r *http.Request) {
 	x := r.URL.Query().Get("x")
-	a := &arrived{Method: r.Method, Header: r.Header.Clone(), CL: r.ContentLength, TE: append([]string(nil), r.TransferEncoding...)}
+	a := &arrived{Method: r.Method, Proto: r.Proto, Header: r.Header.Clone(), CL: r.ContentLength, TE: append([]string(nil), r.TransferEncoding...)}
 	b, err := io.ReadAll(r.Body)
 	a.Body = b
 	if err != nil {
 		a.ReadErr = err.Error()
 	}
+	first := r.URL.Query().Get("first") // scripted answer to the first attempt of this exchange: 503 | 401
 	o.mu.Lock()
-	o.seen[x] = a
+	attempt := 1
+	if first != "" {
+		if _, again := o.seen[x+"#1"]; again {
+			attempt = 2
+		} else {
+			o.seen[x+"#1"] = a
+		}
+	}
+	if first == "" || attempt == 2 {
+		o.seen[x] = a
+	}
 	pay, isDL := o.serve[r.URL.Query().Get("dl")]
 	o.mu.Unlock()
+	if first != "" && attempt == 1 {
+		switch first {
+		case "401":
+			w.Header().Set("WWW-Authenticate", `Digest realm="c17", nonce="dcd98b7102dd2f0e8b11d0f600bfb0c093", qop="auth", algorithm=MD5, opaque="5ccc069c403ebaf9f0171e9517f40e41"`)
+			w.WriteHeader(401)
+			w.Write([]byte("challenge"))
+		default:
+			w.WriteHeader(503)
+			w.Write([]byte("try again"))
+		}
+		return
+	}
 	if isDL {
 		w.Header().Set("Content-Type", "application/octet-stream")
 		if r.URL.Query().Get("cl") != "0" {
@@ -69,3 +118,13 @@ func (o *origin) take(x string) *arrived {
 }
 
 func (o *origin) url(x string) string { return o.srv.URL + "/c17?x=" + x }
+
+func (o *origin) urlFor(proto, x string) string {
+	switch proto {
+	case "h2":
+		return o.h2.URL + "/c17?x=" + x
+	case "h3":
+		return o.h3url + "/c17?x=" + x
+	}
+	return o.url(x)
+}
